@@ -169,6 +169,9 @@ class Check:
             print("HARNESS-ERROR %s: %s" % (self.id, ex), file=sys.stderr)
             self.write_evidence(tier, seed, nrun, 0, time.time() - t0, note="harness error: %s" % str(ex)[:300])
             return 2
+        return self.conclude(tier, seed, viols, nrun, t0, known, workdir)
+
+    def conclude(self, tier, seed, viols, nrun, t0, known, workdir):
         # ---- route through known findings
         new, seen_known = {}, {}
         for x in viols:
@@ -185,7 +188,7 @@ class Check:
             printed.add((prop, k.get("what")))
             print("KNOWN-FINDING: property=%s %s [key=%s]" % (prop, k.get("what", ""), key))
         for (prop, key), x in new.items():
-            path = runner.save_replay(self.id, x.res, x.msg) if x.res is not None else "-"
+            path = runner.save_replay(self.id, x.res, x.msg) if x.res is not None else getattr(x, "replay_path", "-")
             if x.res is not None:
                 with open(path[:-7] + ".json", "w") as f:
                     json.dump({"nprocs": x.res.case.nprocs, "env": x.res.case.env, "key": key, "why": x.msg[:4000], "timeout": x.res.case.timeout}, f, indent=1)
